@@ -550,11 +550,12 @@ class ActionParser:
         if not (len(args) == 1 and args[0].startswith("--")):
             raise ValueError(f"ActionParser only accepts a single optional key but got {args}")
         prefix = args[0][2:]
+        dest = prefix.replace("-", "_")
 
         def add_prefix(key):
             return re.sub("^--", "--" + prefix + ".", key)
 
-        required_args = {prefix + "." + x for x in subparser.required_args}
+        required_args = {dest + "." + x for x in subparser.required_args}
 
         option_string_actions = {}
         for key, action in filter_default_actions(subparser._option_string_actions).items():
@@ -565,7 +566,6 @@ class ActionParser:
             raise ValueError(f"ActionParser conflicting keys: {isect}")
 
         actions = []
-        dest = prefix.replace("-", "_")
         for action in filter_default_actions(subparser._actions):
             if isinstance(action, ActionYesNo):
                 action._add_dest_prefix(prefix)
